@@ -986,9 +986,9 @@ func c06Oracle(s *sim, op Op, idx int) {
 func c06Spec() propSpec {
 	return propSpec{
 		prop: "C06", test: "TestVerifC06MirrorMinority",
-		rule: "histories against one real Mirror: 0-3 honest macro rounds, then only a set F holding < 1/3 of the power votes (prevotes and precommits, nil / known / unknown targets, several targets per message and across messages, voting round, next round and later rounds, late votes for the committing height, duplicates) interleaved with proposals and state machine entrances; after every step every VoteSummary (views, gossip and state machine outputs) is recomputed from the signer bitsets over distinct validators in math/big and the voting position must not have moved since F started voting; non-trivial = some member of F signed >= 2 targets of one kind in one round; distinct = fingerprint of (config, op list)",
+		rule: "histories against one real Mirror: 0-3 honest macro rounds, then only a set F holding < 1/3 of the power votes (prevotes and precommits, nil / known / unknown targets, several targets per message and across messages, voting round, next round and later rounds, late votes for the committing height, duplicates) interleaved with proposals, state machine entrances and clean restarts (the start-up re-evaluation of the stored votes must not move the node either); after every step every VoteSummary (views, gossip and state machine outputs) is recomputed from the signer bitsets over distinct validators in math/big and the voting position must not have moved since F started voting; non-trivial = some member of F signed >= 2 targets of one kind in one round; distinct = fingerprint of (config, op list)",
 		profile: genProfile{
-			w:              map[string]int{"ph": 2, "vote": 14, "round": 3, "sment": 1, "read": 1, "stall": 1},
+			w:              map[string]int{"ph": 2, "vote": 14, "round": 3, "sment": 1, "read": 1, "stall": 1, "restart": 1},
 			phVariants:     []int{phFresh},
 			pcpVariants:    []int{pcpExact},
 			voteCorr:       []int{vcNone},
